@@ -208,7 +208,7 @@ def gen_mutants(ck, name, b):
             m[o] ^= 1 << bit
             yield ("flip@%d.%d" % (o, bit), bytes(m))
     # max-value substitution in aligned 2/4/8-byte fields
-    step = 2 if (small or thorough) else max(2, (n // 1500) * 2)
+    step = 2 if small else max(2, (n // (6000 if thorough else 1500)) * 2)
     for o in range(0, n - 1, step):
         for wdt in (2, 4, 8):
             if o % wdt == 0 and o + wdt <= n:
@@ -338,50 +338,61 @@ def run():
     bad = ck.correspond("list_loop", "observe_list", IMPORTS, lcases, zlist, chunk=1500)
     for i in bad[:3]:
         ck.notes.append("list model/impl differ on %r: impl %r" % lcases[i])
-    # (c) supervised opens
-    inputs, meta = [], {}
+    # (c) supervised opens -- one seed at a time, so that the mutants of one file only are held in memory
+    slow = 0.0
+    total = 0
+    last = None
+
+    def judge(inputs, meta, res):
+        nonlocal slow, last
+        for cid, b in inputs:
+            name, desc = meta[cid]
+            t, r = res.get(cid, (0.0, "WORKER-FAILED no outcome recorded"))
+            slow = max(slow, t)
+            kind = desc.split("@")[0]
+            ck.count("mut:" + kind)
+            cls = r.split()[0]
+            ck.count("outcome:" + (r if cls == "exc" else cls))
+            hv = header_valid_independent(b)
+            if hv:
+                ck.nontriv((name, desc))
+            if cls in ("HANG", "MEMORY", "CRASH", "WORKER-FAILED"):
+                ck.fail("open-" + cls.lower(), {"seed": name, "mutation": desc, "bytes": b}, r, "a document or an ordinary exception within the limits")
+            elif cls == "ok" and not hv:
+                ck.fail("open-accepts-invalid-header", {"seed": name, "mutation": desc, "bytes": b}, r, "rejected")
+            elif t > PER_INPUT_S / 2:
+                ck.fail("open-slow", {"seed": name, "mutation": desc, "bytes": b}, "%.1f s" % t, "< %d s" % (PER_INPUT_S // 2))
+            last = {"mutant": [name, desc], "outcome": r}
+
     for name, b in seeds(ck):
-        seen = set()
+        inputs, meta, seen = [], {}, set()
         for desc, m in gen_mutants(ck, name, b):
             if m in seen or m == b:
                 continue
             seen.add(m)
-            cid = len(inputs)
-            inputs.append((cid, m))
-            meta[cid] = (name, desc)
+            inputs.append((len(inputs), m))
+            meta[len(inputs) - 1] = (name, desc)
+        res = run_batches(ck, inputs)
+        judge(inputs, meta, res)
+        total += len(inputs)
+        if len(ck.samples) < 4 and inputs:
+            ck.sample({"mutant": list(meta[len(inputs) // 2]), "outcome": res.get(len(inputs) // 2)})
+    inputs, meta = [], {}
     for _ in range(400 if ck.tier == "thorough" else 100):  # random bytes, with and without a valid header
         body = bytes(ck.rng.randrange(256) for _ in range(ck.rng.randint(0, 300)))
-        cid = len(inputs)
-        inputs.append((cid, (mk_header(ver=ck.rng.choice([1, 2])) if ck.rng.random() < 0.7 else b"") + body))
-        meta[cid] = ("random", "random-bytes")
+        inputs.append((len(inputs), (mk_header(ver=ck.rng.choice([1, 2])) if ck.rng.random() < 0.7 else b"") + body))
+        meta[len(inputs) - 1] = ("random", "random-bytes")
     res = run_batches(ck, inputs)
-    ck.evals += len(inputs)
-    slow = 0.0
-    for cid, b in inputs:
-        name, desc = meta[cid]
-        t, r = res.get(cid, (0.0, "WORKER-FAILED no outcome recorded"))
-        slow = max(slow, t)
-        kind = desc.split("@")[0]
-        ck.count("mut:" + kind)
-        cls = r.split()[0]
-        ck.count("outcome:" + (r if cls == "exc" else cls))
-        hv = header_valid_independent(b)
-        if hv:
-            ck.nontriv(cid)
-        if cls in ("HANG", "MEMORY", "CRASH", "WORKER-FAILED"):
-            ck.fail("open-" + cls.lower(), {"seed": name, "mutation": desc, "bytes": b}, r, "a document or an ordinary exception within the limits")
-        elif cls == "ok" and not hv:
-            ck.fail("open-accepts-invalid-header", {"seed": name, "mutation": desc, "bytes": b}, r, "rejected")
-        elif t > PER_INPUT_S / 2:
-            ck.fail("open-slow", {"seed": name, "mutation": desc, "bytes": b}, "%.1f s" % t, "< %d s" % (PER_INPUT_S // 2))
-    ck.sample({"mutant": meta[len(inputs) // 2], "outcome": res.get(len(inputs) // 2)})
+    judge(inputs, meta, res)
+    total += len(inputs)
+    ck.evals += total
     ck.assumptions += [
         "interpreter crashes, wall-clock time and memory cannot be exhibited by a Gallina model: they are supervised at run time "
         "(RLIMIT_AS %d MB, SIGALRM %d s per input, worker exit status), over the generated mutants only" % (RLIMIT_MB, PER_INPUT_S),
         "the loop theorems are generic over item readers that fail or consume >= 1 byte; that each concrete psd-tools item reader has this "
         "progress property is checked for descriptor List/Integer by correspondence and otherwise only observed through the supervised runs",
     ]
-    return ck.finish({"supervised_inputs": len(inputs), "slowest_open_s": round(slow, 3)})
+    return ck.finish({"supervised_inputs": total, "slowest_open_s": round(slow, 3)})
 
 
 def replay(path):
